@@ -271,7 +271,69 @@ def rk_intervals(ctx):
         ("gene.interval:AbstractInterval.lift_over_to_first_ancestor_of_type", "lift back = part inside the chunk")])
 
 
+def _guid_case(repo, it, S, spec):
+    """identifier of a collection-level object built on a chunk = identifier of the same object built on the chromosome"""
+    kind, (cs, ce) = spec
+    from ..genekernel import mk_collection, mk_feature_collection, mk_gene
+    out = []
+    pc = chrom_parent(it, GENOME, alphabet="NT_EXTENDED")
+    pk = chunk_parent(it, GENOME, cs, ce, alphabet="NT_EXTENDED")
+    F = it.enum("CDSFrame")
+
+    def build(p):
+        tx1 = mk_transcript(it, [(6, 12), (15, 22)], S["PLUS"], cds=[(8, 12), (15, 19)], frames=[F["ZERO"], F["ONE"]], transcript_id="t1",
+                            parent_or_seq_chunk_parent=p)
+        tx2 = mk_transcript(it, [(7, 20)], S["PLUS"], transcript_id="t2", parent_or_seq_chunk_parent=p)
+        ft = mk_feature(it, [(9, 14), (17, 21)], S["MINUS"], feature_name="f", parent_or_seq_chunk_parent=p)
+        if kind == "TranscriptInterval":
+            return tx1
+        if kind == "FeatureInterval":
+            return ft
+        if kind == "CDSInterval":
+            return tx1.fields["cds"]
+        g = mk_gene(it, [tx1, tx2], gene_id="g", parent_or_seq_chunk_parent=p)
+        if kind == "GeneInterval":
+            return g
+        fc = mk_feature_collection(it, [ft], feature_collection_id="fc", parent_or_seq_chunk_parent=p)
+        if kind == "FeatureIntervalCollection":
+            return fc
+        if kind == "VariantIntervalCollection":
+            v = it.apply(ClassTok("VariantInterval"), [10, 11, "T", "SNV"], {"parent_or_seq_chunk_parent": p}, None, 0)
+            return it.apply(ClassTok("VariantIntervalCollection"), [[v]], {"variant_collection_id": "vc", "parent_or_seq_chunk_parent": p}, None, 0)
+        return mk_collection(it, [g], [fc], sequence_name="chr1", name="ac", parent_or_seq_chunk_parent=p, start=cs, end=ce)
+
+    mod = {"TranscriptInterval": "gene.transcript", "FeatureInterval": "gene.feature", "CDSInterval": "gene.cds", "GeneInterval": "gene.gene",
+           "FeatureIntervalCollection": "gene.feature", "VariantIntervalCollection": "gene.variants", "AnnotationCollection": "gene.collections"}[kind]
+    q = f"{mod}:{kind}.__init__"
+    try:
+        a, b = build(pc), build(pk)
+    except Raised as ex:
+        return 1, [("construct", f"{kind} on chunk [{cs},{ce}): {ex.exc_name}", q)]
+    ga, gb = str(a.fields.get("guid")), str(b.fields.get("guid"))
+    if ga != gb:
+        out.append(("identifier of the chunk-built twin", f"{kind} built on chunk chr1:{cs}-{ce} has guid {gb}; the same object built on the whole "
+                    f"chromosome has {ga}: the identifier digest reads chunk-relative values", q))
+    return 1, out
+
+
+def rg_guids(ctx):
+    kinds = ("TranscriptInterval", "FeatureInterval", "CDSInterval", "GeneInterval", "FeatureIntervalCollection",
+             "VariantIntervalCollection", "AnnotationCollection")
+    specs = [(k, w) for k in kinds for w in ((2, 40), (5, 30), (10, 18))]
+    results = pmap(_runner(ctx.repo, _guid_case), specs, min_items=4)
+    mod = {"TranscriptInterval": "gene.transcript", "FeatureInterval": "gene.feature", "CDSInterval": "gene.cds", "GeneInterval": "gene.gene",
+           "FeatureIntervalCollection": "gene.feature", "VariantIntervalCollection": "gene.variants", "AnnotationCollection": "gene.collections"}
+    _report(ctx, "C07.RG", results, [(f"{mod[k]}:{k}.__init__", "chunk-built twin has the chromosome-built twin's identifier") for k in kinds])
+
+
 def r1_digest_sources(ctx):
+    """strengthening on top of RG (which decides by interpretation on three windows): no chunk-relative accessor among the
+    arguments of digest_object extends RG's verdict to every chunk window.  Never alarms."""
+    ctx.r.soften("C07.R1")
+    _r1_digest_sources(ctx)
+
+
+def _r1_digest_sources(ctx):
     """no chunk-relative accessor among the arguments of digest_object in the interval / collection classes"""
     r = ctx.r
     n = 0
@@ -297,5 +359,6 @@ def r1_digest_sources(ctx):
 RULES = [
     ("C07.RK", rk_cds),
     ("C07.RT", rk_intervals),
+    ("C07.RG", rg_guids),
     ("C07.R1", r1_digest_sources),
 ]
